@@ -60,8 +60,8 @@ func (r RawDeltaSeconds) Value() (dur time.Duration, valid bool) {
 // parseDeltaSeconds parses a non-negative number of seconds, capping values
 // too large to represent instead of letting them wrap around.
 func parseDeltaSeconds(s string) (dur time.Duration, valid bool) {
-	if len(s) == 0 || s[0] == '-' {
-		return
+	if len(s) == 0 || s[0] == '-' || s[0] == '+' {
+		return // delta-seconds = 1*DIGIT: no sign
 	}
 	seconds, err := strconv.ParseInt(s, 10, 64)
 	switch {
